@@ -388,6 +388,75 @@ class ExpandSingle(Harness):
                 raise Violation("expand-structure-differs", f"{got} vs {want}")
 
 
+class SplitAncestry(Harness):
+    """Key functions that look at where a node sits in the graph (its depth, what feeds it): every node lands in the part its key
+    names on the graph as given, along chains and diamonds of up to five nodes."""
+
+    name = "xform-split-ancestry"
+    engine = "E1-crosshair"
+    properties = ("C11",)
+    rule = "one path = (chain or diamond shape of 2..5 nodes, key function from {depth parity, depth // 2, fed only by sources}); non-trivial = >=3 nodes"
+    assumptions = ["names n0..n4"]
+    outside = []
+    KEYS = ["depth-parity", "depth-halved", "fed-only-by-sources"]
+
+    def shards(self, tier):
+        return [{"n": n} for n in range(2, 6)]
+
+    def budget(self, tier):
+        return 60.0
+
+    def bounds(self, tier):
+        return {"nodes": "2..5", "shapes": "chain, or chain with a second input from the first node", "keys": self.KEYS}
+
+    def functions(self):
+        return [g_split.split_graph, g_split.Splitter, g_transform.Transformer]
+
+    def body(self, ch, params):
+        with ch.untraced():
+            n = params["n"]
+            nodes = []
+            for j in range(n):
+                ins = {}
+                if j > 0:
+                    ins["x"] = nodes[j - 1].get_output()
+                    if j >= 2 and ch.flag(f"also_reads_first{j}"):
+                        ins["y"] = nodes[0].get_output()
+                nodes.append(Node(f"n{j}", outputs=None if j < n - 1 else [], payload=f"p{j}", **ins))
+            g = Graph([nodes[-1]])
+            want_structure = graphgen.structure(g)
+            mode = ch.choose(self.KEYS, "key")
+
+            def depth(nd):
+                return 1 + max([depth(s.parent) for s in nd.inputs.values()], default=-1)
+
+            def keyf(nd):
+                if mode == "depth-parity":
+                    return depth(nd) % 2
+                if mode == "depth-halved":
+                    return depth(nd) // 2
+                return "io" if all(not s.parent.inputs for s in nd.inputs.values()) else "compute"
+
+            want = {nd.name: keyf(nd) for nd in nodes}  # on the graph as given
+            ch.note("case", {"n": n, "key": mode, "want": {k: str(v) for k, v in want.items()}})
+            ch.note("nontrivial", n >= 3)
+            parts, cuts = guarded("split", lambda: g_split.split_graph(keyf, g))
+            cutnames = {c.name for c in cuts}
+            got = {}
+            for k, pg in parts.items():
+                for nd in pg.nodes():
+                    if nd.name in cutnames:
+                        continue
+                    if nd.name in got:
+                        raise Violation("split-node-in-two-parts", nd.name)
+                    got[nd.name] = k
+            if got != want:
+                raise Violation("split-node-in-wrong-part", f"key {mode}: parts {got} but the key function says {want}")
+            crossing = sum(1 for name, (outs, pl, ins) in want_structure.items() for (iname, parent, o) in ins if want[parent] != want[name])
+            if len(cuts) != crossing:
+                raise Violation("split-cut-count", f"{len(cuts)} cuts for {crossing} crossing edges")
+
+
 class CutNames(Harness):
     """Two different edges that a split cuts get different cut names (the sink and the source that stand in for a cut edge
     are tied together by that name only), also when node, output and input names contain the characters the name is built with."""
@@ -430,6 +499,7 @@ class CutNames(Harness):
 
 
 register(CutNames())
+register(SplitAncestry())
 register(ExpandSingle())
 register(Xform("xform-copy-rename", ["copy", "rename"]))
 register(Xform("xform-dedup-fuse", ["dedup", "fuse"]))
